@@ -11,6 +11,8 @@ git -C /repo worktree remove --force "$wt" 2>/dev/null; rm -rf "$wt"
 git -C /repo worktree add -q --detach "$wt" HEAD || exit 2
 cleanup(){ git -C /repo worktree remove --force "$wt" 2>/dev/null; rm -rf "$wt" /tmp/seedtmp-$id; }
 trap cleanup EXIT
+# demos keep their scratch files under /tmp/seedtmp-<prop>r<round>/ and some expect that directory to exist
+sd=$(basename "$dir"); case "$sd" in C[0-9][0-9]-round*) mkdir -p "/tmp/seedtmp-${sd%%-*}r${sd##*round}";; esac
 run_demo(){ cwd=$(mktemp -d /tmp/seedcwd.XXXXXX); ( cd "$cwd" && timeout 900 bash "$dir/demo.sh" "$wt" >"/tmp/seedverify-$id.$1.log" 2>&1 ); rc=$?; rm -rf "$cwd"; echo $rc; }
 demo_unchanged=$(run_demo unchanged)
 applies=yes
